@@ -420,6 +420,100 @@ def pVolume (nOther nProbes : Nat) (obs : List String) : String :=
       | _ => "bad-op"
   | _ => "bad-op"
 
+/-! ### share / sharec: several wrappers built from one Deduplicator value -/
+
+structure ShStep where
+  kind : Char      -- m, d, D
+  idx : Nat
+  key : Nat
+  deriving Inhabited
+
+def parseShStep (nMw nDec : Nat) (t : String) : Option ShStep :=
+  match t.splitOn ":" with
+  | [wr, k] => do
+    let k ← k.toNat?
+    match wr.toList with
+    | ['D'] => pure ⟨'D', 0, k⟩
+    | c :: ds@(_ :: _) => do
+      let i ← (String.ofList ds).toNat?
+      if c == 'm' && i < nMw then pure ⟨'m', i, k⟩
+      else if c == 'd' && i < nDec then pure ⟨'d', i, k⟩
+      else none
+    | _ => none
+  | _ => none
+
+/-- which repository a presentation goes to: a Deduplicator value has ONE state that all its wrappers (and its own
+    `IsDuplicate`) use – the defaults are written into the value by the first wrapper; a nil `*Deduplicator` has no value,
+    every wrapper built from it is a Deduplicator of its own -/
+def shSlot (cfg : String) (nMw : Nat) (s : ShStep) : Nat :=
+  if cfg = "nilptr" then (if s.kind == 'm' then s.idx else nMw + s.idx) else 0
+
+def shLetters (cfg : String) (nMw : Nat) (steps : List ShStep) : List Char := Id.run do
+  let mut repos : List (Nat × Repo String) := []
+  let mut out : List Char := []
+  let mut now := 0
+  for s in steps do
+    let slot := shSlot cfg nMw s
+    let r := (repos.lookup slot).getD []
+    let (r', res, _) := middleware bigWindow r (.key (toString s.key)) now ()
+    repos := (slot, r') :: repos.filter (·.1 != slot)
+    now := now + 1
+    out := (match res with | .handled _ => 'p' | .dropped => 'd' | .keyErr => 'e') :: out
+  return out.reverse
+
+def validCfg (cfg : String) (steps : List ShStep) : Bool :=
+  ["defrepo", "defall", "explicit", "nilptr"].contains cfg && !(cfg = "nilptr" && steps.any (·.kind == 'D'))
+
+/-- statement: among all messages of one key presented to one Deduplicator – through whichever of its wrappers –
+    exactly one gets through, the others are dropped as successes -/
+def pShare (cfg : String) (nMw : Nat) (steps : List ShStep) (obs : String) : String := Id.run do
+  let letters := if obs = "-" then [] else obs.toList
+  if letters.length != steps.length then return "violated:length"
+  let mut reached : List (Nat × Nat) := []
+  for (s, c) in steps.zip letters do
+    let id := (shSlot cfg nMw s, s.key)
+    if c == 'p' then
+      if reached.contains id then return "violated:duplicate_reached"
+      reached := id :: reached
+    else if c == 'd' then
+      if !(reached.contains id) then return "violated:dropped_but_none_reached"
+    else return "violated:error_or_panic"
+  return "ok"
+
+def parseShAssign (nMw nDec : Nat) (s : String) : Option (List (List ShStep)) :=
+  (s.splitOn ";").mapM fun g => (g.splitOn ".").mapM (parseShStep nMw nDec)
+
+def shStats (cfg : String) (nMw : Nat) (all : List ShStep) : List (Nat × Nat) :=
+  -- per key: number of distinct deduplicators it was presented to (= messages that get through), presentations
+  let nk := all.foldl (fun m s => max m (s.key + 1)) 0
+  (List.range nk).map fun k =>
+    let mine := all.filter (·.key == k)
+    (((mine.map (shSlot cfg nMw)).eraseDups).length, mine.length)
+
+def mSharec (cfg : String) (nMw : Nat) (gs : List (List ShStep)) : String :=
+  let all := gs.flatten
+  let letters := shLetters cfg nMw all           -- any interleaving gives the same counts (`concurrent_exactly_one`)
+  let nk := all.foldl (fun m s => max m (s.key + 1)) 0
+  ",".intercalate ((List.range nk).map fun k =>
+    let mine := (all.zip letters).filter (·.1.key == k)
+    s!"k{k}={(mine.filter (·.2 == 'p')).length}:{(mine.filter (·.2 == 'd')).length}:0")
+
+def pSharec (cfg : String) (nMw : Nat) (gs : List (List ShStep)) (obs : String) : String := Id.run do
+  let want := shStats cfg nMw gs.flatten
+  match parseKeyStats obs with
+  | none => return "bad-op"
+  | some st =>
+    if st.length != want.length then return "violated:length"
+    for (v, (through, n)) in st.zip want do
+      match v with
+      | [reached, dropped, errs] =>
+        if errs != 0 then return "violated:error_or_panic"
+        if reached + dropped != n then return "violated:length"
+        if reached > through then return "violated:concurrent_exactly_one"
+        if reached < through then return "violated:dropped_but_none_reached"
+      | _ => return "bad-op"
+    return "ok"
+
 /-! ### hash / metakey / timeout / router / expire -/
 
 def mHash (algo : String) (l : Int) (p1 p2 : List UInt8) : String :=
@@ -651,6 +745,39 @@ def handle (line : String) : String :=
     match parseHasher h, parseCtxAssign a with
     | some _, some gs => if via = "mw" || via = "dec" then pCtxc gs obs else "bad-op"
     | _, _ => "bad-op"
+  | "M" :: "share" :: cfg :: nMw :: nDec :: steps =>
+    match nMw.toNat?, nDec.toNat? with
+    | some nMw, some nDec =>
+      match steps.mapM (parseShStep nMw nDec) with
+      | some steps => if validCfg cfg steps then
+          (let l := shLetters cfg nMw steps; if l.isEmpty then "-" else String.ofList l) else "bad-op"
+      | none => "bad-op"
+    | _, _ => "bad-op"
+  | "P" :: "share" :: cfg :: nMw :: nDec :: rest =>
+    match nMw.toNat?, nDec.toNat?, rest.span (· ≠ "##") with
+    | some nMw, some nDec, (steps, ["##", obs]) =>
+      match steps.mapM (parseShStep nMw nDec) with
+      | some steps => if validCfg cfg steps then pShare cfg nMw steps obs else "bad-op"
+      | none => "bad-op"
+    | _, _, _ => "bad-op"
+  | ["M", "sharec", cfg, nMw, nDec, _, a] =>
+    match nMw.toNat?, nDec.toNat? with
+    | some nMw, some nDec =>
+      match parseShAssign nMw nDec a with
+      | some gs => if validCfg cfg gs.flatten then mSharec cfg nMw gs else "bad-op"
+      | none => "bad-op"
+    | _, _ => "bad-op"
+  | ["P", "sharec", cfg, nMw, nDec, _, a, "##", obs] =>
+    match nMw.toNat?, nDec.toNat? with
+    | some nMw, some nDec =>
+      match parseShAssign nMw nDec a with
+      | some gs => if validCfg cfg gs.flatten then pSharec cfg nMw gs obs else "bad-op"
+      | none => "bad-op"
+    | _, _ => "bad-op"
+  | ["M", "idle", via, ms, wk, bud] =>
+    if ["repo", "mw", "dec"].contains via && ms.toNat?.isSome && wk.toNat?.isSome && bud.toNat?.isSome then "reaccepted" else "bad-op"
+  | ["P", "idle", _, _, _, _, "##", obs] =>
+    if obs = "reaccepted" then "ok" else "violated:accepted_again_after_expiry"
   | ["M", "volume", via, ms, n, np] =>
     match ms.toNat?, n.toNat?, np.toNat? with
     | some _, some n, some np => if ["repo", "mw", "dec"].contains via then mVolume n np else "bad-op"
